@@ -2,6 +2,8 @@
     Property theorems only; each is closed by [exact] of a lemma proved in Proofs/. *)
 Require Import Sedpack.Model.Base Sedpack.Generated.GenMerge Sedpack.Model.Filler Sedpack.Model.Meta.
 Require Import Sedpack.Proofs.MergeBasics Sedpack.Proofs.MergeProofs Sedpack.Proofs.HistoryProofs.
+Require Sedpack.Proofs.IterateProofs.
+From Coq Require Import Permutation.
 
 (** The merge that ends every session never removes, adds or alters a shard entry of any list,
     never touches a shard file, and leaves every list outside the merged split as it was: what
@@ -33,6 +35,17 @@ Theorem c08_history_appends_only :
     (forall d n v, lookup_shard d n (shards (fst st1)) = Some v -> lookup_shard d n (shards (fst st2)) = Some v).
 Proof. exact history_appends_only. Qed.
 Print Assumptions c08_history_appends_only.
+
+(** With [c08_history_appends_only] (stored shard files persist): for whole histories of the session model of C04 (fillers into any
+    directory, multi-writer calls, the recursive merge): after every history that completes, unshuffled iteration of a split — the
+    depth-first shard list, each shard's stored examples — is a permutation of the contents of ALL shard files stored below that
+    split: every stored shard exactly once, nothing else. *)
+Theorem c08_iteration_returns_everything_stored :
+  forall eps : nat, 1 <= eps -> forall (h : list Meta.session) (fs : Meta.fsT) (info : Meta.dinfo), Meta.run_history eps h = Meta.Ok (fs, info) ->
+  forall (s : nat) (li : Meta.list_info), Meta.dget info s = Some li ->
+  Permutation (Meta.iterate fs info s) (flat_map (fun e => fst (snd e)) (filter (IterateProofs.under s) (Meta.shards fs))).
+Proof. exact IterateProofs.history_iterate_is_stored. Qed.
+Print Assumptions c08_iteration_returns_everything_stored.
 
 (** With the assertion on the number of same-level updates removed (generated switch), the
     histories that used to fail — a second session in the same sub-directory, a session in the
